@@ -171,6 +171,9 @@ def bounds(tier):
                                          "single leaf / already binary), as_graph result emptied and re-requested",
             "combined labels (audit 2)": "label set with two awkward feature classes per label (+ a blank-and-quote label in "
                                          "the blank set), read back plain and with 2 whitespace decorations",
+            "precedence (audit 3)": "trees <=3 leaves (<=1 unary) and 4 leaves: labels on intermediate nodes (6 names incl. "
+                                    "index-, length- and leaf-label-like) in 4 written strings each must be discarded; "
+                                    "include_distance=False with round_distance; labels list shifted beyond the leaf count",
             "deep": "caterpillars nested %s levels must work; 30000 and 100000 levels may be refused but must not end the "
                     "process (9 operations, forked)" % ("1100" if tier == "quick" else "999,1000,1001,1100,3000"),
         },
@@ -1236,6 +1239,8 @@ def check_misuse(ctx, case):
         expect(lambda: TreeNode([a], [1.0], index=1), (TypeError,), "TreeNode.__init__", sc)
         if a.parent is not None:
             ctx.violation("TreeNode.__init__|state_changed_after_refusal|%s" % sc, "child got a parent", case)
+    elif sc == "index_and_distances":
+        expect(lambda: TreeNode(index=0, distances=[1.0]), (TypeError,), "TreeNode.__init__", sc)
     elif sc == "children_without_distances":
         a = TreeNode(index=0)
         expect(lambda: TreeNode([a]), (TypeError,), "TreeNode.__init__", sc)
@@ -2186,6 +2191,88 @@ def run_derived(shard, ctx):
             ctx.sample(case)
 
 
+
+# ---------------------------------------------------------------------------
+# option precedence (third audit, H): a value that can come from two places
+# ---------------------------------------------------------------------------
+INNER_NAMES = ["inner", "7", "0", "0.95", "1e3", "LEAF"]      # LEAF -> replaced by the label of leaf 0
+
+
+def check_precedence(ctx, case):
+    """(a) documented: labels of intermediate nodes are discarded - also when they look like an index, a length or
+    equal a leaf label; (b) include_distance=False together with round_distance: no lengths; (c) a labels list
+    whose used entries lie beyond the leaf count -> documented TreeError (indices out of range)."""
+    from biotite.sequence.phylo import Tree, TreeError
+
+    spec = case["spec"]
+    tree = Tree(build_impl(spec)[0])
+    n = len(tree)
+    impl_spec = extract(tree.root)
+    plain = LABELS_PLAIN[0][:n]
+
+    def V(what, fail, msg, exp=None, got=None):
+        ctx.violation("precedence|%s|%s" % (fail, what), msg, case, exp, got)
+
+    for labels in (None, plain):
+        for incl in (True, False):
+            kw = {} if labels is None else {"labels": labels}
+            s0 = tree.to_newick(include_distance=incl, **kw)
+            want = M.clade_map(impl_spec if incl else _zeroed(impl_spec))
+            if ")" in s0:
+                for name in INNER_NAMES:
+                    nm = (plain[0] if labels is not None else "0") if name == "LEAF" else name
+                    s1 = s0.replace(")", ")" + nm)
+                    ctx.count("newick_read")
+                    try:
+                        t1 = Tree.from_newick(s1, labels) if labels is not None else Tree.from_newick(s1)
+                        bad = _cmp_clades(want, extract(t1.root), "exact", None)
+                    except Exception as e:  # noqa: BLE001
+                        bad = ("raises_" + type(e).__name__, "tree", repr(e))
+                    if bad:
+                        V("inner_label_" + ("numeric" if nm[0].isdigit() else "text") + ("" if labels is None else "_with_labels"),
+                          bad[0], "a label on an intermediate node was not discarded: %r" % s1[:150], bad[1], bad[2])
+            # (b) both options given and contradicting each other
+            if not incl:
+                for rd in ROUNDS:
+                    s2 = tree.to_newick(include_distance=False, round_distance=rd, **kw)
+                    ctx.count("newick_written")
+                    if s2 != s0:
+                        V("include_distance_false_and_round_distance", "lengths_written",
+                          "round_distance made the writer include lengths although include_distance=False", s0, s2)
+    # (c) labels whose used entries refer to leaves the tree does not have
+    s3 = tree.to_newick(labels=plain)
+    shifted = ["unused"] + plain
+    try:
+        t3 = Tree.from_newick(s3, shifted)
+        V("labels_beyond_leaf_count", "no_error", "leaf indices beyond the leaf count were accepted", "TreeError",
+          [lf.index if lf is not None else None for lf in t3.leaves])
+    except TreeError:
+        ctx.count("refused")
+    except Exception as e:  # noqa: BLE001
+        V("labels_beyond_leaf_count", "wrong_error_" + type(e).__name__, "documented TreeError expected", "TreeError", repr(e))
+    if shifted != ["unused"] + plain:
+        V("labels_beyond_leaf_count", "labels_modified", "labels list changed", None, shifted)
+    ctx.outcome(M.canon(impl_spec))
+
+
+def precedence_cases():
+    out = []
+    for n in (1, 2, 3, 4):
+        for sh in M.shapes(n, 1 if n <= 3 else 0):
+            ne = M.shape_stats(sh)[3]
+            out.append({"kind": "precedence", "spec": M.instantiate(sh, list(range(n)), [(k + 1) * 0.25 for k in range(ne)])})
+    return out
+
+
+def run_precedence(shard, ctx):
+    for case in precedence_cases():
+        if not ctx.journal(case):
+            continue
+        ctx.ev(1, 1)
+        check_precedence(ctx, case)
+    ctx.sample(case)
+
+
 # ---------------------------------------------------------------------------
 # shards
 # ---------------------------------------------------------------------------
@@ -2237,6 +2324,7 @@ def shards(tier, seed):
     for p in range(4 if q else 8):
         out.append({"kind": "big", "part": p, "parts": 4 if q else 8, "fam": "big"})
     out.append({"kind": "refuse", "fam": "refuse"})
+    out.append({"kind": "precedence", "fam": "precedence"})
     for p in range(2 if q else 8):
         out.append({"kind": "derived", "part": p, "parts": 2 if q else 8, "fam": "derived"})
     for p in range(3):
@@ -2299,6 +2387,8 @@ def run_shard(shard, ctx):
         run_deep(shard, ctx)
     elif k == "derived":
         run_derived(shard, ctx)
+    elif k == "precedence":
+        run_precedence(shard, ctx)
     else:
         raise ValueError(shard)
 
@@ -2461,7 +2551,7 @@ def misuse_cases():
                 if sc.startswith("length_mismatch") and pos:
                     continue
                 out.append({"kind": "misuse", "scenario": sc, "k": k, "pos": pos})
-    for sc in ("no_arguments", "index_and_children", "children_without_distances", "empty_children", "negative_index",
+    for sc in ("no_arguments", "index_and_children", "index_and_distances", "children_without_distances", "empty_children", "negative_index",
                "tree_of_none", "tree_of_child", "root_as_child"):
         out.append({"kind": "misuse", "scenario": sc})
     return out
@@ -2524,6 +2614,8 @@ def replay(case, ctx):
         check_deep(ctx, case)
     elif k == "derived":
         check_derived(ctx, case)
+    elif k == "precedence":
+        check_precedence(ctx, case)
     else:
         raise ValueError(case)
 
